@@ -89,6 +89,7 @@ class TriggerHandler:
         self.__old_thread_trace = None
         self.__old_sys_trace = None
         self.__installed = False
+        self.__shut_down = False
         self._push_service = push_service
         self._tp_config: List[Trigger] = []
         self._config = config
@@ -108,6 +109,7 @@ class TriggerHandler:
         sys.settrace(self.trace_call)
         threading.settrace(self.trace_call)
         self.__installed = True
+        self.__shut_down = False
 
     def new_config(self, new_config: List['Trigger']):
         """
@@ -117,6 +119,10 @@ class TriggerHandler:
 
         :param new_config: the new config to use
         """
+        if self.__shut_down:
+            # a config update that was still queued when we were shut down (it runs while the task handler is flushed)
+            # must not bring the tracepoints back: threads that are already running still call us
+            return
         self._tp_config = new_config
 
     def trace_call(self, frame: FrameType, event: str, arg):
@@ -249,6 +255,7 @@ class TriggerHandler:
         self.__installed = False
         # threads that are already running keep calling us (settrace only affects the calling thread, and new threads)
         # so drop the tracepoints; we do not act once we are shutdown
+        self.__shut_down = True
         self._tp_config = []
         sys.settrace(self.__old_sys_trace)
         threading.settrace(self.__old_thread_trace)
